@@ -1,0 +1,18 @@
+//go:build verif
+
+// Machine-checked contracts for govc (see /verif/DESIGN.md). Comments only;
+// compiled only with the build tag "verif".
+
+package grpcv3
+
+// C01 (Envoy ext-auth): an OK response is built only when no pipeline error is recorded.
+//@ func (*RequestContext).Finalize
+//@   props C01
+//@   ensures old(r.err) != nil ==> ret0 == nil && ret1 == old(r.err)
+//@   ensures old(r.err) == nil ==> ret1 == nil && ret0 != nil
+
+//@ func (*Handler).Check
+//@   props C01
+//@   ensures exec.n == old(exec.n) + 1
+//@   ensures exec.ret1[old(exec.n)] != nil ==> ret0 == nil && ret1 == exec.ret1[old(exec.n)]
+//@   ensures ret0 != nil ==> exec.ret1[old(exec.n)] == nil
